@@ -45,7 +45,7 @@ seconds = 30 if tier == "quick" else 300
 resf = os.path.join(work, "result.json")
 try:
     p = subprocess.run([binp, "--seed", seed, "--seconds", str(seconds), "--out", resf], cwd=work, env=env,
-                       stdout=subprocess.PIPE, stderr=subprocess.STDOUT, text=True, timeout=seconds + 150)
+                       stdout=subprocess.PIPE, stderr=subprocess.STDOUT, text=True, timeout=seconds + 900)
     out, rc = p.stdout, p.returncode
 except subprocess.TimeoutExpired as e:
     out, rc = (e.stdout or b"").decode(errors="replace") if isinstance(e.stdout, bytes) else (e.stdout or ""), 124
